@@ -71,7 +71,12 @@ let handle line =
        ^ Printf.sprintf " CHK %s %s %s %s" (b2s (pins_ok_b e u g)) (b2s (coherent_b g roots)) (b2s (closed_b g roots)) (b2s (explain_honest_b e g roots))
        ^ trace g
      | CNoCand (g, nm, sp) ->
-       Printf.sprintf "NOCAND %s %d %s G %s" (cl_hex nm) (List.length sp) (String.concat " " (List.map print_clause sp)) (print_graph e g) ^ trace g
+       let chains = match slookup (norm (safe_name nm)) g.index with
+         | Some id -> let ps = find_paths_to_root g id in
+           Printf.sprintf " CHAINS %d %s" (List.length ps)
+             (String.concat " " (List.map (fun p -> string_of_int (List.length p) ^ " " ^ String.concat " " (List.map (key_of g) p)) ps))
+         | None -> " CHAINS -1" in
+       Printf.sprintf "NOCAND %s %d %s G %s" (cl_hex nm) (List.length sp) (String.concat " " (List.map print_clause sp)) (print_graph e g) ^ chains ^ trace g
      | CFatal er -> "FATAL " ^ err_class er ^ " " ^ err_detail er)
   | "Q" ->
     let cs = next_list st next_clause in
